@@ -692,8 +692,11 @@ def compile_unit(ast, unit, registry, wd, defines=()):
     icmd = ['goto-instrument', '--dfcc', 'harness']
     tname = facts['target']
     icmd += ['--enforce-contract-rec' if unit.rec else '--enforce-contract', tname]
+    ctext = open(cfile).read()
     for r in facts['replaced']:
-        icmd += ['--replace-call-with-contract', r]
+        # only functions that are actually called (the prototype carrying the contract is the one other occurrence)
+        if len(re.findall(r'\b%s\(' % re.escape(r), ctext)) > 1:
+            icmd += ['--replace-call-with-contract', r]
     if unit.loops or unit.lifted_loops:
         icmd += ['--apply-loop-contracts']
     icmd += [a, b]
